@@ -79,8 +79,11 @@ func (a *CopyOnWriteArrayList[T]) Add(index int, t T) (err error) {
 	newItems := make([]T, n, n+1)
 	copy(newItems, a.vals)
 	newItems, err = slice.Add(newItems, t, index)
+	if err != nil {
+		return err
+	}
 	a.vals = newItems
-	return
+	return nil
 }
 
 // Set 设置CopyOnWriteArrayList里index位置的值为t
